@@ -265,6 +265,15 @@ def message_set_cases(tier):
                     w3 = rk.msg(base + 4, None, None, magic=magic, attributes=3 - codec, inner=inner2,
                                 timestamp=ts_dom[0])
                     out.append(("wrapper-mixed", [w, tail, w3]))
+        # a gzip wrapper whose value is a multi-member gzip stream (legal gzip; written by some producers that
+        # flush their compressor between appends)
+        for base in bases[:2]:
+            for k in (2, 3):
+                inner = [rk.msg((base + i) if magic == 0 else i, b"k%d" % i, b"mm%d" % i, magic=magic,
+                                timestamp=ts_dom[0]) for i in range(3)]
+                w = rk.msg(base + 2, None, None, magic=magic, attributes=1, inner=inner, timestamp=ts_dom[0])
+                w["members"] = k
+                out.append(("wrapper-gzip-multimember", [w]))
         # nesting depth 2 (a wrapper inside a wrapper), both codec orders
         for c1, c2 in ((1, 2), (2, 1), (1, 1)):
             leaf = [rk.msg((100 + i) if magic == 0 else i, b"k", b"n%d" % i, magic=magic, timestamp=ts_dom[0])
@@ -592,7 +601,8 @@ def run(tier, seed, only=None):
         "and the two embedded consumer-protocol blobs, the product of small value domains (every error code -1..72, "
         "boundary ints, null/empty/long strings and bytes, 0..2 topics x 0..2 partitions/members in both orders) "
         "encoded by refkafka and decoded by afkak; message sets: magic {0,1} x codec {none,gzip,snappy-shim} x "
-        "key/value in {null,empty,bytes} x base offsets {0,1000,2^62} x gaps x timestamps, wrappers with relative "
+        "key/value in {null,empty,bytes} x base offsets {0,1000,2^62} x gaps x timestamps, gzip wrappers holding a "
+        "multi-member gzip stream, wrappers with relative "
         "and absolute inner offsets, mixed sets, nesting depth 2; plus afkak encode->decode identity. Distinct "
         "non-trivial = distinct structural/value-class shapes.")
     rep.assumptions = ["refkafka is the independent encoder (validated by its own round-trip self-test)",
